@@ -24,7 +24,7 @@ REORDER = Profile(new=6, edit_refresh=8, push=14, pop=12, goto=8, float=10, sink
 UNDO = Profile(new=6, edit_refresh=6, push=8, pop=8, float=3, sink=3, delete=3, hide=2, unhide=2, rename=2,
                undo=14, redo=10, reset=6, gcommit=1.5, commit=1, invalid=1, extmods=2)
 REPAIR = Profile(new=8, edit_refresh=8, push=5, pop=6, delete=2, hide=2, repair=10, gcommit=8, gamend=4, greset=9,
-                 gmerge=1, undo=1, commit=1, uncommit=1, inspect=1)
+                 gmerge=1, undo=1, commit=1, uncommit=1, inspect=1, twin_commits=3)
 COMMIT = Profile(new=10, edit_refresh=8, push=6, pop=6, commit=12, uncommit=10, float=3, sink=3, undo=3, redo=2,
                  gcommit=3, delete=2, hide=2, goto=2, repair=1, invalid=1)
 DIRTY = Profile(new=8, edit_refresh=6, dirty_edit=14, push=10, pop=10, goto=6, float=5, sink=5, delete=4, hide=2,
@@ -322,6 +322,18 @@ class Chooser:
             return {"c": "repair"}
         if kind == "logclear":
             return {"c": "logclear"}
+        if kind == "twin_commits":
+            # two (or three) plain commits whose subjects derive the same patch name, then ONE repair
+            subj = rng.choice(["wip", "Fix It", "tidy"])
+            seq = []
+            for j in range(rng.choice([2, 2, 3])):
+                m = self.next_meta()
+                seq.append(self.edit_cmd(view))
+                s2 = subj if j != 1 or rng.random() < 0.7 else "other " + subj
+                seq.append({"c": "gcommit", "meta": m, "subj": "%s\n\nx%d" % (s2, m)})
+            seq.append({"c": "repair"})
+            self.pending = seq[1:]
+            return seq[0]
         if kind == "extmods":
             # an external commit on top of the stack, then navigation through the log entry
             # that records it (undo / redo / reset land ON the "external modifications" entry)
@@ -340,6 +352,10 @@ class Chooser:
             m = self.next_meta()
             if rng.random() < 0.5:
                 self.pending_git_commit = m
+            if rng.random() < 0.35:
+                # same subject as other plain commits / patches (the tag moves to the body): the
+                # names repair derives collide with each other and with existing patches
+                return {"c": "gcommit", "meta": m, "subj": "%s\n\nx%d" % (rng.choice(["wip", "Fix It", "tidy", "p0"]), m)}
             return {"c": "gcommit", "meta": m, "subj": "x%d %s" % (m, rng.choice(["git change", "Fix It", "wip", "p0", "a  b"]))}
         if kind == "gamend":
             m = self.next_meta()
